@@ -534,4 +534,68 @@ func (dht *IpfsDHT) handleNewMessage(s network.Stream) bool
   ghost at before call(handler): assert($h != nil && $rerr == nil)
   ghost at call(handler): $herr = $ret1
   ghost at before call(WriteMsg): assert($herr == nil && $arg1 != nil)
+
+# ---- routing table admission / eviction (C12) -------------------------------------------
+guarded_by IpfsDHT.lookupChecksLk : IpfsDHT.lookupCheckCapacity
+directive callers validPeerFound : queryPeer, peerFound
+directive senders addPeerToRTChan : validPeerFound
+directive extcallers TryAddPeer : rtPeerLoop
+
+func (dht *IpfsDHT) validRTPeer(p peer.ID) (bool, error)
+  props C12
+  ghostvar $b protocol.ID = ""
+  ghostvar $perr error = nil
+  ghostvar $f bool = true
+  modifies nothing
+  ensures [internal-protocol-and-filter] imp(result0, result1 == nil && len($b) != 0 && $perr == nil && (dht.routingTablePeerFilter == nil || $f))
+  ghost at call(FirstSupportedProtocol): $b = $ret0; $perr = $ret1; assert($arg0 == p)
+  ghost at call(routingTablePeerFilter): $f = $ret0; assert($arg1 == p)
+
+role routingTablePeerFilter(d any, p peer.ID) bool in (dht *IpfsDHT) validRTPeer(p peer.ID) (bool, error)
+  pure
+
+func (dht *IpfsDHT) lookupCheck(ctx context.Context, p peer.ID) error
+  props C12
+  ghostvar $gerr error = nil
+  modifies *
+  ensures [internal-answered] imp(result == nil, $gerr == nil)
+  ghost at before call(GetClosestPeers): assert($arg1 == p && $arg2 == p)
+  ghost at call(GetClosestPeers): $gerr = $ret1
+
+func (dht *IpfsDHT) peerFound(p peer.ID)
+  props C12
+  ghostvar $useful bool = false
+  ghostvar $valid bool = false
+  modifies *
+  ghost at call(UsefulNewPeer): $useful = $ret0
+  ghost at call(validRTPeer): $valid = ($ret0 && $ret1 == nil)
+  ghost at go(func): assert($useful && $valid)
+
+funclit 0 in (dht *IpfsDHT) peerFound(p peer.ID)
+  props C12
+  ghostvar $lerr error = nil
+  ghostvar $inc int = 0
+  ensures [internal-capacity-returned] $inc == 1
+  ghost at before call(lookupCheck): assert($arg1 == p)
+  ghost at call(lookupCheck): $lerr = $ret0
+  ghost at inc(dht.lookupCheckCapacity): $inc = $inc + 1
+  ghost at before call(validPeerFound): assert($lerr == nil && $arg0 == p)
+
+func (dht *IpfsDHT) peerStoppedDHT(p peer.ID)
+  props C12
+  modifies nothing
+  ghost at before call(RemovePeer): assert($arg0 == p)
+
+func handlePeerChangeEvent(dht *IpfsDHT, p peer.ID)
+  props C12
+  ghostvar $valid bool = false
+  ghostvar $verr error = nil
+  modifies *
+  ghost at call(validRTPeer): $valid = $ret0; $verr = $ret1
+  ghost at before call(peerFound): assert($verr == nil && $valid && $arg0 == p)
+  ghost at before call(peerStoppedDHT): assert($verr == nil && !$valid && $arg0 == p)
+
+funclit 0 in (dht *IpfsDHT) rtPeerLoop()
+  props C12
+  ghost at before call(TryAddPeer): assert($arg0 == p)
 @*/
